@@ -73,6 +73,10 @@ def run(ctx, drv):
         name = names[i % len(names)]
         kind = kinds[(i // len(names) + i) % len(kinds)]
         cfgs.append(gen_cfg(rng, name, kind, elements=rng.choice(["int", "str"]) if kind in ("perm", "subset") else "int"))
+    for name in ("PESA2", "PAES", "PESA2"):
+        c = gen_cfg(rng, name, "real")
+        c["kind"], c["nobjs"], c["dirs"], c["ncon"], c["size"] = "real", 2, [False, rng.random() < 0.3], 0, rng.choice([4, 6])
+        cfgs.append(c)
     # string-element subsets / permutations through the library's default operators, several algorithms
     for name in ("NSGAII", "GA", "SPEA2", "EpsMOEA", "PAES", "IBEA") if ctx.quick() else names:
         for kind in ("subset", "perm"):
@@ -110,6 +114,14 @@ def run(ctx, drv):
                 sv = dict(c, mode="save", budgets=[s * k, s * 3], file=f)
                 rs = dict(c, mode="resume", budgets=[s * k, s * 3], file=f, scramble=7 + k)
                 futs.append(("save-resume", c, k, ex.submit(lambda sv=sv, rs=rs: (sub(sv, 0), sub(rs, 0)))))
+            # (iii-b) algorithms whose state contains lazily maintained structures (adaptive grid bounds / densities, which only
+            # go stale once the archive has been full for a while): late boundaries as well
+            if c["name"] in ("PESA2", "PAES"):
+                for k in ([5, 9, 14, 20, 27] if ctx.quick() else [5, 9, 14, 20, 27, 35, 50, 70]):
+                    f = os.path.join(tmp, f"state_{ci}_late{k}.bin")
+                    sv = dict(c, mode="save", budgets=[s * k, s * 2], file=f)
+                    rs = dict(c, mode="resume", budgets=[s * k, s * 2], file=f, scramble=3 + k)
+                    futs.append(("save-resume", c, k, ex.submit(lambda sv=sv, rs=rs: (sub(sv, 0), sub(rs, 0)))))
             # (iv) composition
             if c["name"] != "EpsNSGAII":
                 def comp(c=c, s=s):
@@ -162,6 +174,15 @@ def run(ctx, drv):
                         if d2 and not _benign(d2):
                             ctx.fail("seeded-run-depends-on-process-history", desc, d2, "identical results in a fresh interpreter", f"algorithms.{c['name']} / operators (shared default instances)")
                         ctx.count("in-process-vs-fresh-interpreter")
+                if kind == "save-resume" and isinstance(a.get("state"), dict) and isinstance(b.get("state"), dict):
+                    # the state handed back by load_state is the state that was saved (attribute by attribute, and the RNG)
+                    diff_attrs = sorted(k_ for k_ in set(a["state"]) | set(b["state"]) if a["state"].get(k_) != b["state"].get(k_))
+                    if diff_attrs:
+                        ctx.fail("restored-state-differs-from-saved-state", dict(desc, boundary=extra), diff_attrs, "every attribute of the algorithm and the RNG state restored exactly",
+                                 "io.save_state / io.load_state")
+                    ctx.count("state-digests-compared")
+                a = {k_: v_ for k_, v_ in a.items() if k_ != "state"}
+                b = {k_: v_ for k_, v_ in b.items() if k_ != "state"}
                 d = first_diff(a, b)
                 if d and not _benign(d):
                     where = {"same-seed-in-process": f"algorithms.{c['name']}", "save-resume": "io.save_state / io.load_state",
